@@ -71,6 +71,12 @@ def _cond_short(case):
 V1_ENGINES = ("v1-proc", "v1-acker", "sandbox")
 
 
+def _surplus_acks(case):
+    """a destination (or DLQ destination) reply was scripted to carry more acks than records taken"""
+    i = case["input"]
+    return any(a.get("act") in ("extra", "dup") for d in ("dest", "dlq") for a in (i.get(d) or {}).get("acts") or [])
+
+
 def is_v1(case):
     return (case.get("input") or {}).get("engine") in V1_ENGINES
 
@@ -112,6 +118,8 @@ def _components(case, code):
                 cause = "conditional-fewer-results-than-kept"
             elif _more_results(obs):
                 cause = "more-results-than-records"
+            elif "DestinationTask" in site and _surplus_acks(case):
+                cause = "surplus-acks"
             else:
                 cause = "unknown"
             parts.append("panic/%s/%s/%s" % (site, msg, cause))
